@@ -17,11 +17,11 @@ PROPERTY = "C06"
 # CODE VARIANT FLAGS — which variant of the code the model is compared with (fields of `Variant` in
 # lean/RichModel/Model/ColorParse.lean).  1 = rich 9.10.0 as found, 0 = repaired (see /verif/pending_fixes).
 RGB_VALUEERROR = 1      # F9 (owned by C14): Color.parse("rgb(1,,2)") raises ValueError, not ColorParseError
-ADD_HASH = 1            # F3: Style.__add__ stores the right operand's hash
-FROM_COLOR_HASH = 1     # F4: Style.from_color hashes (color, bgcolor, None, None, None)
-WITHOUT_COLOR_HASH = 1  # F5: Style.without_color copies the old hash
-UPDATE_LINK_HASH = 1    # F6: Style.update_link copies the old hash
-UPDATE_LINK_DEF = 1     # F26: Style.update_link copies the cached _style_definition
+ADD_HASH = 0            # F3: Style.__add__ stores the right operand's hash
+FROM_COLOR_HASH = 0     # F4: Style.from_color hashes (color, bgcolor, None, None, None)
+WITHOUT_COLOR_HASH = 0  # F5: Style.without_color copies the old hash
+UPDATE_LINK_HASH = 0    # F6: Style.update_link copies the old hash
+UPDATE_LINK_DEF = 0     # F26: Style.update_link copies the cached _style_definition
 FLAGS = "".join(str(int(bool(x))) for x in (RGB_VALUEERROR, ADD_HASH, FROM_COLOR_HASH, WITHOUT_COLOR_HASH, UPDATE_LINK_HASH, UPDATE_LINK_DEF))
 # development aid only (trying a pending fix in a scratch worktree): VERIF_C06_FLAGS=100000 overrides the constants above
 FLAGS = os.environ.get("VERIF_C06_FLAGS") or FLAGS
